@@ -734,6 +734,9 @@ def cadence_items(tier, seed):
         out.append(_item("td7", "cccTcccc", _cfg("td7", seed, 3, 2, logger=True, policy_delay=2, use_checkpoints=False, global_step=4)))
         out.append(_item("nature_dqn", "cccTcccc", _cfg("nature_dqn", seed, 3, 0, global_step=4)))
         out.append(_item("sac", "cccTcccc", _cfg("sac", seed, 3, 2, 0.25, global_step=4)))
+        # resumed MR.Q: the training-iteration count that keys the hard copies continues from global_step - learning_starts
+        out.append(_item("mrq", "cccTcccccc", _cfg("mrq", seed, 3, 4, global_step=6)))
+        out.append(_item("mrq", "cccccccccc", _cfg("mrq", seed, 2, 4, global_step=7)))
         return out
     # thorough: full products (the two-valued tau / update-frequency axes in full, the edge values on a script subset)
     scripts = senv.scripts(T, "cTU", max_dev=1)
